@@ -402,6 +402,21 @@ def rule_r3(ctx) -> List[R.Inst]:
                                         f"0 .. len(groups) - {size}: the last start is len - {size}, so the range ends at len - {size} + 1",
                                         construct=f"range({unparse(rng_.args[-1])})"))
         if not ok_:
+            # the loop runs over the POSITIONS of a list of starts that a filter has narrowed, and slices the groups at the position
+            for n in walk_no_nested(fn.node):
+                if isinstance(n, ast.For) and isinstance(n.target, ast.Name) and isinstance(n.iter, ast.Call) and call_name(n.iter) == "range" and \
+                        len(n.iter.args) == 1 and isinstance(n.iter.args[0], ast.Call) and call_name(n.iter.args[0]) == "len" and \
+                        len(n.iter.args[0].args) == 1 and isinstance(n.iter.args[0].args[0], ast.Name):
+                    lst = n.iter.args[0].args[0]
+                    narrowed = len(local_defs(fn.node, lst.id)) > 1 and _start_range(lst) is not None
+                    if narrowed and len(chunk) == 1 and isinstance(chunk[0], ast.Subscript) and isinstance(chunk[0].slice, ast.Slice) and \
+                            chunk[0].slice.lower is not None and unparse(chunk[0].slice.lower) == n.target.id:
+                        ok_ = True
+                        insts.append(R.viol(rid, "consecutive-chunks", file, n.lineno,
+                                            f"'{lst.id}' holds the chunk starts that passed the filter, but the loop runs over its positions "
+                                            f"(range(len({lst.id}))) and slices the groups at the position: the first k chunks are taken "
+                                            f"instead of the k accepted ones", construct=f"for {n.target.id} in range(len({lst.id})): groups[{n.target.id}:..]"))
+        if not ok_:
             insts.append(R.undec(rid, "consecutive-chunks", file, fn.node.lineno, "chunk enumeration not recognised"))
     # all combinations of a chunk: meshgrid over the groups of the chunk, reshaped to (-1, size)
     mg = [n for n in walk_no_nested(fn.node) if isinstance(n, ast.Call) and call_name(n) == "meshgrid"]
